@@ -171,11 +171,18 @@ class Check:
                 a, m = hist.acc[t.key], hist.mag[t.key]
                 if k is None:
                     feats = sorted({axis_feature(a[i]) for i in range(hist.n)} - {'generic'})
+                    if noise_free and any(float(np.min(np.abs(hist.truth[i]))) < 1e-9 for i in range(hist.n)):
+                        feats.append('special-attitude')
                     mfeats = sorted({'m' + zero_feature(m[i]) for i in range(hist.n)} - {'mgeneric'})
                     return 'history-has:' + (','.join(feats + mfeats) if feats or mfeats else 'none')
                 exact = (noise_free and not (hist.fault_mask_am[k] & (1 | 2 | 8))    # scale, dup and kick keep the images consistent
                          and k not in hist.fixed_rows.get(t.key, ()))
-                return f"acc:{axis_feature(a[k])}|mag:{zero_feature(m[k])}|{'exact' if exact else 'perturbed'}"
+                af = axis_feature(a[k])
+                if af == 'generic' and exact and float(np.min(np.abs(hist.truth[k]))) < 1e-9:
+                    # the samples look generic but the attitude itself is special: one quaternion component is exactly
+                    # zero (reached by turning about a body axis or in a body plane from a canonical pose)
+                    af = 'special-attitude'
+                return f"acc:{af}|mag:{zero_feature(m[k])}|{'exact' if exact else 'perturbed'}"
             if k is None:
                 # a batch constructor that raised does not say at which row: say whether exact poses were in the history
                 return ('slow-sampling:' if hist.dt >= 0.1 else '') + ('history-with-exact-pose' if clean_pose else 'generic')
